@@ -37,7 +37,8 @@ def getB : BleM BleDev := do return (← get).b
 /-- `FakeBLE.channel = value` : only the three BLE frequencies are accepted, others ignored -/
 def setChannel (v : Int) : BleM Unit := do
   if v = 2 ∨ v = 26 ∨ v = 80 then
-    modB fun b => { b with rf := { b.rf with channel := v.toNat } }
+    modB fun b => { b with rf := { b.rf with channel := v.toNat },
+                           currFreq := if v = 2 then 0 else if v = 26 then 1 else 2 }
     liftRf (Rf24.regWrite 0x05 v)
 
 /-- `hop_channel()` -/
